@@ -203,9 +203,23 @@ func (k Keeper) ComputeNextValidators(
 	powerShapingParameters types.PowerShapingParameters,
 	minPowerToOptIn int64,
 ) ([]types.ConsensusValidator, error) {
-	// sort the bonded validators by number of staked tokens in descending order
-	sort.Slice(bondedValidators, func(i, j int) bool {
-		return bondedValidators[i].GetBondedTokens().GT(bondedValidators[j].GetBondedTokens())
+	// sort the bonded validators by voting power in descending order; the sort is stable so that
+	// validators with equal voting power keep the order in which the staking module returned them,
+	// i.e., the order that determines the provider's own active validator set
+	lastPowers := make(map[string]int64, len(bondedValidators))
+	for _, val := range bondedValidators {
+		valAddr, err := sdk.ValAddressFromBech32(val.GetOperator())
+		if err != nil {
+			return []types.ConsensusValidator{}, err
+		}
+		power, err := k.stakingKeeper.GetLastValidatorPower(ctx, valAddr)
+		if err != nil {
+			return []types.ConsensusValidator{}, err
+		}
+		lastPowers[val.GetOperator()] = power
+	}
+	sort.SliceStable(bondedValidators, func(i, j int) bool {
+		return lastPowers[bondedValidators[i].GetOperator()] > lastPowers[bondedValidators[j].GetOperator()]
 	})
 
 	// if inactive validators are not allowed, only consider the first `MaxProviderConsensusValidators` validators
